@@ -183,6 +183,53 @@ func f1BigGlyf(n, total int) *glyf.Outlines {
 	return o
 }
 
+// f1CharsetRuns: CFF outlines of n endchar-only glyphs whose charset is .notdef, one run of exactly
+// run consecutive SIDs (custom names g1..) resp. CIDs (1..run), then n-1-run single-entry runs
+// (standard names with non-adjacent SIDs resp. CIDs 2000, 2002, ...): encodeCharset picks format 1
+// and has to split the long run into ranges of at most 256.
+func f1CharsetRuns(kind byte, n, run int) *cff.Outlines {
+	o := &cff.Outlines{
+		Private:  []*type1.PrivateDict{{BlueValues: []funit.Int16{-10, 0, 700, 710}, BlueScale: 0.039625, BlueShift: 7, BlueFuzz: 1}},
+		FDSelect: func(glyph.ID) int { return 0 },
+	}
+	std := []string{"space", "quotedbl", "dollar", "ampersand", "parenleft", "asterisk", "comma", "period", "zero", "two", "four", "six"}
+	for i := 0; i < n; i++ {
+		nm := ""
+		if kind != 'k' {
+			switch {
+			case i == 0:
+				nm = ".notdef"
+			case i <= run:
+				nm = fmt.Sprintf("g%d", i)
+			default:
+				nm = std[(i-run-1)%len(std)]
+				if i-run-1 >= len(std) {
+					nm = fmt.Sprintf("h%d", 2*i)
+				}
+			}
+		}
+		o.Glyphs = append(o.Glyphs, cff.NewGlyph(nm, 0))
+	}
+	if kind == 'k' {
+		o.ROS = &cid.SystemInfo{Registry: "Adobe", Ordering: "Identity", Supplement: 0}
+		o.GIDToCID = make([]cid.CID, n)
+		for i := range o.GIDToCID {
+			if i <= run {
+				o.GIDToCID[i] = cid.CID(i)
+			} else {
+				o.GIDToCID[i] = cid.CID(2000 + 2*(i-run))
+			}
+		}
+		o.FontMatrices = []matrix.Matrix{matrix.Identity}
+	} else {
+		o.Encoding = make([]glyph.ID, 256)
+		for i := 1; i < n && i < 200; i++ {
+			o.Encoding[32+i%200] = glyph.ID(i)
+		}
+	}
+	return o
+}
+
 // f1BuildOutlines makes glyph data for n glyphs from a seed; kind 'g' glyf, 'c' simple CFF,
 // 'k' CID-keyed CFF.  Widths are set separately.
 func f1BuildOutlines(kind byte, n int, seed uint64) sfnt.Outlines {
@@ -214,6 +261,9 @@ func f1BuildOutlines(kind byte, n int, seed uint64) sfnt.Outlines {
 		}
 		return o
 	default:
+		if seed >= f1BigGlyfSeed { // charset with a run of exactly seed-f1BigGlyfSeed consecutive SIDs/CIDs
+			return f1CharsetRuns(kind, n, int(seed-f1BigGlyfSeed))
+		}
 		o := &cff.Outlines{
 			Private:  []*type1.PrivateDict{{BlueValues: []funit.Int16{-10, 0, 700, 710}, BlueScale: 0.039625, BlueShift: 7, BlueFuzz: 1}},
 			FDSelect: func(glyph.ID) int { return 0 },
@@ -391,6 +441,37 @@ func f1BuildCmap(recipe string, n int) cmap.Table {
 				}
 				mm[uint16(0x30+lang)] = glyph.ID(1 + lang%max(n-1, 1))
 				t[cmap.Key{PlatformID: 1, EncodingID: 0, Language: uint16(lang)}] = mm.Encode(uint16(lang))
+			}
+		case len(fl) > 1 && fl[0] == 'K':
+			// "K<format>:<lang>:<lang>...": Macintosh subtables (1,0,lang) in the given format (12, 4, 6, 0),
+			// all with the same mapping, so that they differ only in the language field
+			ps := strings.Split(fl[1:], ":")
+			for _, ls := range ps[1:] {
+				lang, _ := strconv.Atoi(ls)
+				var sub []byte
+				switch ps[0] {
+				case "12":
+					m12 := cmap.Format12{}
+					for c, g := range m {
+						m12[uint32(c)] = g
+					}
+					sub = m12.Encode(uint16(lang))
+				case "4":
+					mm := cmap.Format4{}
+					for c, g := range m {
+						if c < 128 {
+							mm[c] = g
+						}
+					}
+					sub = mm.Encode(uint16(lang))
+				case "6":
+					sub = []byte{0, 6, 0, 14, byte(lang >> 8), byte(lang), 0, 65, 0, 2, 0, byte(min(n-1, 1)), 0, 0}
+				default:
+					sub = make([]byte, 262)
+					sub[2], sub[3], sub[4], sub[5] = 1, 6, byte(lang>>8), byte(lang)
+					sub[6+65] = byte(min(n-1, 200))
+				}
+				t[cmap.Key{PlatformID: 1, EncodingID: 0, Language: uint16(lang)}] = sub
 			}
 		case fl == "e6" || fl == "s6" || fl == "s0" || fl == "E6" || fl == "M6":
 			// a short legacy subtable in LAST position of the table cmap.Table.Encode lays out:
@@ -1808,6 +1889,29 @@ func init() {
 		}
 		return "same"
 	}
+	// font.cmaprt: Read(Write(F)).CMapTable has exactly the keys (platform, encoding, language) and the
+	// subtable bytes of F.CMapTable (the recipes keep the key's language equal to the subtable's
+	// language field on the Macintosh platform and 0 elsewhere: the domain of C09_table_roundtrip)
+	ops["font.cmaprt"] = func(f Fields) string {
+		font := f1FontFromFields(f)
+		g1, err := sfnt.Read(bytes.NewReader(f1WriteFont(font)))
+		if err != nil {
+			return f1ReadErrClass(err)
+		}
+		if len(g1.CMapTable) != len(font.CMapTable) {
+			return fmt.Sprintf("differ:%d-subtables-of-%d", len(g1.CMapTable), len(font.CMapTable))
+		}
+		for k, v := range font.CMapTable {
+			w, ok := g1.CMapTable[k]
+			if !ok {
+				return fmt.Sprintf("differ:key-%d.%d.%d-lost", k.PlatformID, k.EncodingID, k.Language)
+			}
+			if !bytes.Equal(v, w) {
+				return fmt.Sprintf("differ:data-%d.%d.%d", k.PlatformID, k.EncodingID, k.Language)
+			}
+		}
+		return "same"
+	}
 	// font.nf: Read(Write(F)) is the explicit normal form of F (Lean prints nf F)
 	ops["font.nf"] = ops["font.meta"]
 	// font.file: the bytes (*Font).Write produces (model: writeFile composed from the codec models)
@@ -1910,6 +2014,50 @@ func init() {
 			f1EmitFont(c, rec, true)
 			c.Case(Direct, "font.nf", f1LineOfFont(rec.font, rec.rgl, rec.rcm, rec.rgsub, rec.rgpos, rec.rgdef), true)
 			c.Stat("sweep", "cmap ends in a short legacy subtable")
+		}
+		// Macintosh-platform cmap subtables with a language: long format 12 and short formats 4/6/0 under
+		// languages 0, 7, 9, 0xFFFF, incl. subtables that differ only in the language field
+		for v, ex := range []string{"/K12:7", "/K12:0:7", "/K12:0:7:9:65535", "/K4:7:9", "/K6:9:65535", "/K0:65535:7", "/K12:9/u", "/K12:7:65535", "/K12:0:9"} {
+			rec := f1GenFont(c)
+			for rec.font.NumGlyphs() < 3 || rec.font.NumGlyphs() > 40 || (v < 7) != rec.font.IsGlyf() ||
+				(rec.font.CreationTime.IsZero() && rec.font.ModificationTime.IsZero()) {
+				rec = f1GenFont(c)
+			}
+			n := rec.font.NumGlyphs()
+			rec.rcm = "1.2.1.2.0.1" + ex
+			rec.font.CMapTable = f1BuildCmap(rec.rcm, n)
+			f1EmitFont(c, rec, false)
+			line := f1LineOfFont(rec.font, rec.rgl, rec.rcm, rec.rgsub, rec.rgpos, rec.rgdef)
+			c.Case(Direct, "font.nf", line, true)
+			c.Case(Direct, "font.cmaprt", line, true)
+			c.Stat("sweep", "Macintosh cmap subtables with languages")
+		}
+		// CFF / CID-keyed fonts of 257..600 endchar-only glyphs whose charset has a run of exactly
+		// 255, 256, 257, 511, 512, 513 consecutive SIDs / CIDs followed by further runs (charset format 1)
+		for v, run := range []int{255, 256, 257, 512, 256, 511, 512, 513} {
+			rec := f1GenFont(c)
+			kind := byte('c')
+			if v >= 4 {
+				kind = 'k'
+			}
+			for rec.font.IsGlyf() || rec.font.IsCFF() != true || (rec.font.CreationTime.IsZero() && rec.font.ModificationTime.IsZero()) {
+				rec = f1GenFont(c)
+			}
+			n := run + 1 + 5 + v
+			rec.rgl = f1BigGlyfSeed + uint64(run)
+			o := f1BuildOutlines(kind, n, rec.rgl)
+			ws := make([]float64, n)
+			for i := range ws {
+				ws[i] = float64(400 + i%5*50)
+			}
+			f1SetWidths(o, ws, false)
+			rec.font.Outlines = o
+			rec.font.FontMatrix = matrix.Matrix{0.001, 0, 0, 0.001, 0, 0}
+			rec.rcm, rec.rgsub, rec.rgpos, rec.rgdef = "1.2", "-", "-", "-"
+			rec.font.CMapTable, rec.font.Gsub, rec.font.Gpos, rec.font.Gdef = f1BuildCmap(rec.rcm, n), nil, nil, nil
+			f1EmitFont(c, rec, false)
+			c.Case(Direct, "font.nf", f1LineOfFont(rec.font, rec.rgl, rec.rcm, rec.rgsub, rec.rgpos, rec.rgdef), true)
+			c.Stat("sweep", "CFF charset with runs of 255..513")
 		}
 		// TrueType fonts whose encoded glyf table has exactly the sizes around the loca-format
 		// boundaries (short loca: offsets/2 in 16 bits): 0xfffe, 0x10000, 0x1fffe, 0x20000, 0x20002 ...
